@@ -2,31 +2,37 @@ import ExaModel.Lemmas.PackFits
 import ExaModel.Lemmas.PackCover
 set_option linter.unusedSimpArgs false
 set_option linter.unusedVariables false
-/-! The hypotheses of the C09 theorems and the size theorem for the whole of `messages`. -/
+/-! The notions the C09 theorems are stated with, and the theorems about the whole of `messages`
+    (`packRaw`), from which `Props/C09.lean` derives the statements about `pack`. -/
 namespace Exa.Pack
 
-/-- **Each NLRI that is to be sent fits alone with the attributes**: an UPDATE made of the
-    19-byte header, the two length fields, the attribute block `messages` chose and this one NLRI
-    (framed as MP_REACH / MP_UNREACH for an MP family) is within the negotiated maximum. -/
-def FitsAlone (i : Input) : Prop :=
-  (∀ x ∈ v4Anns i, 23 + chosenAttr i + x.size ≤ i.M) ∧
-  (i.includeWithdraw = true → ∀ x ∈ v4Wds i, 23 + chosenAttr i + x.size ≤ i.M) ∧
-  (∀ x ∈ mpAnns i, 23 + chosenAttr i + attrLen (5 + x.nhLen + x.size) ≤ i.M) ∧
-  (i.includeWithdraw = true → ∀ x ∈ mpWds i, 23 + chosenAttr i + attrLen (3 + x.size) ≤ i.M)
+/-- **The announce `x` fits alone with the attributes**: an UPDATE made of the 19-byte header, the
+    two length fields, the attribute block `messages` chose and this one NLRI (in an MP_REACH_NLRI
+    with its next hop for an MP family) is within the negotiated maximum. -/
+def fitsAnn (i : Input) (x : Nlri) : Prop :=
+  if x.v4 then 23 + chosenAttr i + x.size ≤ i.M
+  else 23 + chosenAttr i + attrLen (5 + x.nhLen + x.size) ≤ i.M
 
-instance (i : Input) : Decidable (FitsAlone i) := by unfold FitsAlone; exact inferInstance
+/-- the same for a withdraw (in an MP_UNREACH_NLRI for an MP family) -/
+def fitsWd (i : Input) (x : Nlri) : Prop :=
+  if x.v4 then 23 + chosenAttr i + x.size ≤ i.M
+  else 23 + chosenAttr i + attrLen (3 + x.size) ≤ i.M
 
-theorem v4WdPart_fits (inclW : Bool) (ms attr : Nat) (vw w a : List Nlri)
-    (hx : inclW = true → ∀ x ∈ vw, x.size ≤ ms) (h : sz w + sz a ≤ ms) :
+instance (i : Input) (x : Nlri) : Decidable (fitsAnn i x) := by unfold fitsAnn; exact inferInstance
+instance (i : Input) (x : Nlri) : Decidable (fitsWd i x) := by unfold fitsWd; exact inferInstance
+
+/-! ### size -/
+
+theorem v4WdPart_fits (inclW : Bool) (ms attr : Nat) (vw w a : List Nlri) (h : sz w + sz a ≤ ms) :
     (∀ m ∈ (v4WdPart inclW ms attr vw w a).msgs, m.len ≤ 23 + attr + ms) ∧
     sz (v4WdPart inclW ms attr vw w a).w + sz (v4WdPart inclW ms attr vw w a).a ≤ ms := by
   unfold v4WdPart
   split
-  · rename_i hi; exact v4WdLoop_fits ms attr vw w a (hx hi) h
+  · exact v4WdLoop_fits ms attr vw w a h
   · exact ⟨by simp, h⟩
 
-theorem packRaw_fits (i : Input) (h : FitsAlone i) : ∀ m ∈ (packRaw i).msgs, m.len ≤ i.M := by
-  obtain ⟨h1, h2, h3, h4⟩ := h
+/-- every message `messages` yields is within the negotiated maximum — no hypothesis -/
+theorem packRaw_fits (i : Input) : ∀ m ∈ (packRaw i).msgs, m.len ≤ i.M := by
   intro m hm
   unfold packRaw at hm
   split at hm
@@ -37,38 +43,25 @@ theorem packRaw_fits (i : Input) (h : FitsAlone i) : ∀ m ∈ (packRaw i).msgs,
     · rename_i hM
       split at hm
       · simp at hm
-      · -- ms > 0, M = 23 + attr + ms
-        have hMe : 23 + chosenAttr i + (i.M - 23 - chosenAttr i) = i.M := by omega
+      · have hMe : 23 + chosenAttr i + (i.M - 23 - chosenAttr i) = i.M := by omega
         generalize hms : i.M - 23 - chosenAttr i = ms at hm hMe
-        have a1 := v4AnnLoop_fits ms (chosenAttr i) (v4Anns i) [] []
-          (fun x hx => by have := h1 x hx; omega) (by simp)
-        split at hm
-        · simp only at hm; have := a1.1 m hm; omega
-        · have a2 := v4WdPart_fits i.includeWithdraw ms (chosenAttr i) (v4Wds i)
-            (v4AnnLoop ms (chosenAttr i) (v4Anns i) [] []).w (v4AnnLoop ms (chosenAttr i) (v4Anns i) [] []).a
-            (fun hi x hx => by have := h2 hi x hx; omega) a1.2
-          generalize v4WdPart i.includeWithdraw ms (chosenAttr i) (v4Wds i)
-            (v4AnnLoop ms (chosenAttr i) (v4Anns i) [] []).w (v4AnnLoop ms (chosenAttr i) (v4Anns i) [] []).a = r2 at hm a2
+        have a1 := v4AnnLoop_fits ms (chosenAttr i) (v4Anns i) [] [] (by simp)
+        have a2 := v4WdPart_fits i.includeWithdraw ms (chosenAttr i) (v4Wds i)
+          (v4AnnLoop ms (chosenAttr i) (v4Anns i) [] []).w (v4AnnLoop ms (chosenAttr i) (v4Anns i) [] []).a a1.2
+        generalize v4WdPart i.includeWithdraw ms (chosenAttr i) (v4Wds i)
+          (v4AnnLoop ms (chosenAttr i) (v4Anns i) [] []).w (v4AnnLoop ms (chosenAttr i) (v4Anns i) [] []).a = r2 at hm a2
+        simp only [List.mem_append] at hm
+        rcases hm with ((hm | hm) | hm) | hm
+        · have := a1.1 m hm; omega
+        · have := a2.1 m hm; omega
+        · unfold v4Final at hm
           split at hm
-          · simp only [List.mem_append] at hm
-            rcases hm with hm | hm
-            · have := a1.1 m hm; omega
-            · have := a2.1 m hm; omega
-          · simp only [List.mem_append] at hm
-            rcases hm with ((hm | hm) | hm) | hm
-            · have := a1.1 m hm; omega
-            · have := a2.1 m hm; omega
-            · unfold v4Final at hm
-              split at hm
-              · simp at hm; subst hm
-                have := mkMsg_len_le (chosenAttr i) r2.w none (decide (sz r2.a ≠ 0)) none r2.a
-                simp at this; simp; omega
-              · simp at hm
-            · have := famLoop_fits i.includeWithdraw ms (chosenAttr i) (mpAnns i) (mpWds i)
-                (fun x hx => by have := h3 x hx; omega)
-                (fun hi x hx => by have := h4 hi x hx; omega)
-                (mpFams i) r2.w r2.a (by omega) m hm
-              omega
+          · simp at hm; subst hm
+            have := mkMsg_len_le (chosenAttr i) r2.w none (decide (sz r2.a ≠ 0)) none r2.a
+            simp at this; simp; omega
+          · simp at hm
+        · have := famLoop_fits i.includeWithdraw ms (chosenAttr i) (mpAnns i) (mpWds i) (mpFams i) m hm
+          omega
 
 theorem pack_sub (i : Input) : ∀ m ∈ (pack i).msgs, m ∈ (packRaw i).msgs := by
   intro m hm
@@ -77,16 +70,25 @@ theorem pack_sub (i : Input) : ∀ m ∈ (pack i).msgs, m ∈ (packRaw i).msgs :
 
 /-! ### what the messages hold -/
 
-/-- an MP_REACH_NLRI of the output: requested MP announces of ONE family with ONE next hop -/
+/-- an MP_REACH_NLRI of the output: requested MP announces of ONE family with ONE next hop, each of
+    which fits alone -/
 def Rg (i : Input) (r : Mp) : Prop :=
-  r.hdr = 5 + r.nhLen ∧ ∀ x ∈ r.items, x ∈ mpAnns i ∧ x.fam = r.fam ∧ x.nh = r.nh ∧ x.nhLen = r.nhLen
+  r.hdr = 5 + r.nhLen ∧ ∀ x ∈ r.items, x ∈ mpAnns i ∧ x.fam = r.fam ∧ x.nh = r.nh ∧ x.nhLen = r.nhLen ∧
+    23 + chosenAttr i + attrLen (5 + x.nhLen + x.size) ≤ i.M
 
 /-- an MP_UNREACH_NLRI of the output: requested MP withdraws of one family, only with `include_withdraw` -/
 def Ug (i : Input) (u : Mp) : Prop :=
-  i.includeWithdraw = true ∧ u.hdr = 3 ∧ ∀ x ∈ u.items, x ∈ mpWds i ∧ x.fam = u.fam
+  i.includeWithdraw = true ∧ u.hdr = 3 ∧ ∀ x ∈ u.items, x ∈ mpWds i ∧ x.fam = u.fam ∧
+    23 + chosenAttr i + attrLen (3 + x.size) ≤ i.M
+
+/-- what the classic NLRI field may hold -/
+def A4g (i : Input) (x : Nlri) : Prop := x ∈ v4Anns i ∧ 23 + chosenAttr i + x.size ≤ i.M
+/-- what the classic Withdrawn Routes field may hold -/
+def W4g (i : Input) (x : Nlri) : Prop :=
+  x ∈ v4Wds i ∧ i.includeWithdraw = true ∧ 23 + chosenAttr i + x.size ≤ i.M
 
 theorem v4WdPart_sec {A4 W4 : Nlri → Prop} {R U : Mp → Prop} (inclW : Bool) (ms attr : Nat) (vw w a : List Nlri)
-    (hx : inclW = true → ∀ x ∈ vw, W4 x) (ha : ∀ x ∈ a, A4 x) (hw : ∀ x ∈ w, W4 x) :
+    (hx : inclW = true → ∀ x ∈ vw, x.size ≤ ms → W4 x) (ha : ∀ x ∈ a, A4 x) (hw : ∀ x ∈ w, W4 x) :
     (∀ m ∈ (v4WdPart inclW ms attr vw w a).msgs, SecOK A4 W4 R U m) ∧
     (∀ x ∈ (v4WdPart inclW ms attr vw w a).a, A4 x) ∧ (∀ x ∈ (v4WdPart inclW ms attr vw w a).w, W4 x) := by
   unfold v4WdPart
@@ -95,8 +97,7 @@ theorem v4WdPart_sec {A4 W4 : Nlri → Prop} {R U : Mp → Prop} (inclW : Bool) 
   · exact ⟨by simp, ha, hw⟩
 
 theorem packRaw_sections (i : Input) :
-    ∀ m ∈ (packRaw i).msgs,
-      SecOK (fun x => x ∈ v4Anns i) (fun x => x ∈ v4Wds i ∧ i.includeWithdraw = true) (Rg i) (Ug i) m := by
+    ∀ m ∈ (packRaw i).msgs, SecOK (A4g i) (W4g i) (Rg i) (Ug i) m := by
   intro m hm
   unfold packRaw at hm
   split at hm
@@ -104,52 +105,46 @@ theorem packRaw_sections (i : Input) :
   · simp only at hm
     split at hm
     · simp at hm
-    · split at hm
+    · rename_i hM
+      split at hm
       · simp at hm
-      · generalize i.M - 23 - chosenAttr i = ms at hm
-        have a1 := v4AnnLoop_sec (A4 := fun x => x ∈ v4Anns i) (W4 := fun x => x ∈ v4Wds i ∧ i.includeWithdraw = true)
-          (R := Rg i) (U := Ug i) ms (chosenAttr i) (v4Anns i) [] []
-          (fun x hx => hx) (by intro y hy; simp at hy) (by intro y hy; simp at hy)
-        split at hm
+      · have hMe : 23 + chosenAttr i + (i.M - 23 - chosenAttr i) = i.M := by omega
+        generalize i.M - 23 - chosenAttr i = ms at hm hMe
+        have a1 := v4AnnLoop_sec (A4 := A4g i) (W4 := W4g i) (R := Rg i) (U := Ug i) ms (chosenAttr i) (v4Anns i) [] []
+          (fun x hx hs => ⟨hx, by omega⟩) (by intro y hy; simp at hy) (by intro y hy; simp at hy)
+        have a2 := v4WdPart_sec (A4 := A4g i) (W4 := W4g i) (R := Rg i) (U := Ug i) i.includeWithdraw ms (chosenAttr i)
+          (v4Wds i) (v4AnnLoop ms (chosenAttr i) (v4Anns i) [] []).w (v4AnnLoop ms (chosenAttr i) (v4Anns i) [] []).a
+          (fun hi x hx hs => ⟨hx, hi, by omega⟩) a1.2.1 a1.2.2
+        generalize v4WdPart i.includeWithdraw ms (chosenAttr i) (v4Wds i)
+          (v4AnnLoop ms (chosenAttr i) (v4Anns i) [] []).w (v4AnnLoop ms (chosenAttr i) (v4Anns i) [] []).a = r2 at hm a2
+        simp only [List.mem_append] at hm
+        rcases hm with ((hm | hm) | hm) | hm
         · exact a1.1 m hm
-        · have a2 := v4WdPart_sec (A4 := fun x => x ∈ v4Anns i) (W4 := fun x => x ∈ v4Wds i ∧ i.includeWithdraw = true)
-            (R := Rg i) (U := Ug i) i.includeWithdraw ms (chosenAttr i) (v4Wds i)
-            (v4AnnLoop ms (chosenAttr i) (v4Anns i) [] []).w (v4AnnLoop ms (chosenAttr i) (v4Anns i) [] []).a
-            (fun hi x hx => ⟨hx, hi⟩) a1.2.1 a1.2.2
-          generalize v4WdPart i.includeWithdraw ms (chosenAttr i) (v4Wds i)
-            (v4AnnLoop ms (chosenAttr i) (v4Anns i) [] []).w (v4AnnLoop ms (chosenAttr i) (v4Anns i) [] []).a = r2 at hm a2
+        · exact a2.1 m hm
+        · unfold v4Final at hm
           split at hm
-          · simp only [List.mem_append] at hm
-            rcases hm with hm | hm
-            · exact a1.1 m hm
-            · exact a2.1 m hm
-          · simp only [List.mem_append] at hm
-            rcases hm with ((hm | hm) | hm) | hm
-            · exact a1.1 m hm
-            · exact a2.1 m hm
-            · unfold v4Final at hm
-              split at hm
-              · simp at hm; subst hm
-                exact mkMsg_sec _ _ _ _ _ _ a2.2.1 a2.2.2 (by intro _ h; cases h) (by intro _ h; cases h) (by by_cases h : sz r2.a = 0 <;> simp [h])
-              · simp at hm
-            · refine famLoop_sec (A4 := fun x => x ∈ v4Anns i) (W4 := fun x => x ∈ v4Wds i ∧ i.includeWithdraw = true)
-                (R := Rg i) (U := Ug i) i.includeWithdraw ms (chosenAttr i) (mpAnns i) (mpWds i) ?_ ?_
-                (mpFams i) r2.w r2.a a2.2.1 a2.2.2 m hm
-              · intro f maxi r hr
-                obtain ⟨h1, h2, h3⟩ := reachGen_sec maxi f _ r hr
-                refine ⟨h2, ?_⟩
-                intro x hx
-                obtain ⟨hxa, hnh, hnl⟩ := h3 x hx
-                have := List.mem_filter.1 hxa
-                exact ⟨this.1, by rw [h1]; simpa using this.2, hnh, hnl⟩
-              · intro hi f maxi u hu
-                obtain ⟨h1, h2, h3⟩ := unreachGen_sec maxi f _ u hu
-                refine ⟨hi, h2, ?_⟩
-                intro x hx
-                have := List.mem_filter.1 (h3 x hx)
-                exact ⟨this.1, by rw [h1]; simpa using this.2⟩
+          · simp at hm; subst hm
+            exact mkMsg_sec _ _ _ _ _ _ a2.2.1 a2.2.2 (by intro _ h; cases h) (by intro _ h; cases h)
+              (by by_cases h : sz r2.a = 0 <;> simp [h])
+          · simp at hm
+        · refine famLoop_sec (A4 := A4g i) (W4 := W4g i) (R := Rg i) (U := Ug i) i.includeWithdraw ms (chosenAttr i)
+            (mpAnns i) (mpWds i) ?_ ?_ (mpFams i) m hm
+          · intro f r hr
+            obtain ⟨h1, h2, h3⟩ := reachGen_sec ms f _ r hr
+            refine ⟨h2, ?_⟩
+            intro x hx
+            obtain ⟨hxa, hnh, hnl, hfit⟩ := h3 x hx
+            have := List.mem_filter.1 hxa
+            exact ⟨this.1, by rw [h1]; simpa using this.2, hnh, hnl, by omega⟩
+          · intro hi f u hu
+            obtain ⟨h1, h2, h3⟩ := unreachGen_sec ms f _ u hu
+            refine ⟨hi, h2, ?_⟩
+            intro x hx
+            obtain ⟨hxw, hfit⟩ := h3 x hx
+            have := List.mem_filter.1 hxw
+            exact ⟨this.1, by rw [h1]; simpa using this.2, by omega⟩
 
-/-! ### nothing is lost when the generator runs to its end -/
+/-! ### nothing that fits is lost -/
 
 /-- every MP family that has something to send is visited by the loop (`famOrder` lists the set) -/
 def FamCover (i : Input) : Prop := ∀ x ∈ mpAnns i ++ mpWds i, x.fam ∈ i.famOrder
@@ -164,251 +159,106 @@ instance (i : Input) : Decidable (PosSizes i) := by unfold PosSizes; exact infer
 theorem pos_filter {l : List Nlri} (h : Pos l) (p : Nlri → Bool) : Pos (l.filter p) :=
   fun x hx => h x (List.mem_filter.1 hx).1
 
-theorem v4WdPart_cover (inclW : Bool) (ms attr : Nat) (vw w a : List Nlri)
-    (hb : (v4WdPart inclW ms attr vw w a).bailed = false) :
-    (inclW = true → ∀ x ∈ vw, (∃ m ∈ (v4WdPart inclW ms attr vw w a).msgs, x ∈ m.wd4) ∨ x ∈ (v4WdPart inclW ms attr vw w a).w) ∧
+theorem v4WdPart_cover (inclW : Bool) (ms attr : Nat) (vw w a : List Nlri) :
+    (inclW = true → ∀ x ∈ vw, x.size ≤ ms →
+      (∃ m ∈ (v4WdPart inclW ms attr vw w a).msgs, x ∈ m.wd4) ∨ x ∈ (v4WdPart inclW ms attr vw w a).w) ∧
     (∀ x ∈ a, (∃ m ∈ (v4WdPart inclW ms attr vw w a).msgs, x ∈ m.ann4) ∨ x ∈ (v4WdPart inclW ms attr vw w a).a) := by
-  unfold v4WdPart at hb ⊢
+  unfold v4WdPart
   split
-  · rename_i hi
-    simp only [hi, if_true] at hb
-    have := v4WdLoop_cover ms attr vw w a hb
-    exact ⟨fun _ x hx => this.1 x (Or.inl hx), this.2⟩
+  · have := v4WdLoop_cover ms attr vw w a
+    exact ⟨fun _ x hx hs => this.1 x (Or.inl ⟨hx, hs⟩), this.2⟩
   · rename_i hi
     exact ⟨fun h => absurd h hi, fun x hx => Or.inr hx⟩
 
-theorem packRaw_complete (i : Input) (hp : PosSizes i) (hf : FamCover i) (hok : (packRaw i).status = .ok) :
-    (∀ x ∈ v4Anns i, ∃ m ∈ (packRaw i).msgs, x ∈ m.ann4) ∧
-    (∀ x ∈ mpAnns i, InReach (packRaw i).msgs x) ∧
+/-- every requested NLRI of a negotiated family that fits alone is in a message -/
+theorem packRaw_complete (i : Input) (hp : PosSizes i) (hf : FamCover i) :
+    (∀ x ∈ v4Anns i, 23 + chosenAttr i + x.size ≤ i.M → ∃ m ∈ (packRaw i).msgs, x ∈ m.ann4) ∧
+    (∀ x ∈ mpAnns i, 23 + chosenAttr i + attrLen (5 + x.nhLen + x.size) ≤ i.M → InReach (packRaw i).msgs x) ∧
     (i.includeWithdraw = true →
-      (∀ x ∈ v4Wds i, ∃ m ∈ (packRaw i).msgs, x ∈ m.wd4) ∧ (∀ x ∈ mpWds i, InUnreach (packRaw i).msgs x)) := by
+      (∀ x ∈ v4Wds i, 23 + chosenAttr i + x.size ≤ i.M → ∃ m ∈ (packRaw i).msgs, x ∈ m.wd4) ∧
+      (∀ x ∈ mpWds i, 23 + chosenAttr i + attrLen (3 + x.size) ≤ i.M → InUnreach (packRaw i).msgs x)) := by
   have pva : Pos (v4Anns i) := pos_filter hp.1 _
   have pma : Pos (mpAnns i) := pos_filter hp.1 _
   have pvw : Pos (v4Wds i) := pos_filter hp.2 _
   have pmw : Pos (mpWds i) := pos_filter hp.2 _
-  unfold packRaw at hok ⊢
+  have al := attrLen_pos
+  unfold packRaw
   split
   · rename_i hempty
     simp only [Bool.and_eq_true, List.isEmpty_iff] at hempty
     obtain ⟨⟨⟨e1, e2⟩, e3⟩, e4⟩ := hempty
-    simp [e1, e2, e3, e4, InReach, InUnreach]
-  · rename_i hne
-    simp only [hne] at hok
-    simp only at hok ⊢
+    simp [e1, e2, e3, e4]
+  · simp only
     split
-    · rename_i h; simp [h] at hok
     · rename_i hM
-      simp only [hM, if_false] at hok
+      refine ⟨?_, ?_, fun _ => ⟨?_, ?_⟩⟩
+      · intro x hx h; omega
+      · intro x hx h; omega
+      · intro x hx h; omega
+      · intro x hx h; omega
+    · rename_i hM
       split
-      · rename_i h; simp [h] at hok
       · rename_i hms
-        simp only [hms, if_false] at hok
-        generalize i.M - 23 - chosenAttr i = ms at hok ⊢
-        generalize hr1 : v4AnnLoop ms (chosenAttr i) (v4Anns i) [] [] = r1 at hok ⊢
-        split
-        · rename_i h; simp [h] at hok
-        · rename_i hb1
-          simp only [hb1] at hok
-          have hb1' : r1.bailed = false := by simpa using hb1
-          have c1 := v4AnnLoop_cover ms (chosenAttr i) (v4Anns i) [] [] (by rw [hr1]; exact hb1')
-          rw [hr1] at c1
-          have s1 := v4AnnLoop_sec (A4 := fun x => 0 < x.size) (W4 := fun x => 0 < x.size) (R := fun _ => True) (U := fun _ => True)
-            ms (chosenAttr i) (v4Anns i) [] [] pva (by intro y hy; simp at hy) (by intro y hy; simp at hy)
-          rw [hr1] at s1
-          generalize hr2 : v4WdPart i.includeWithdraw ms (chosenAttr i) (v4Wds i) r1.w r1.a = r2 at hok ⊢
-          split
-          · rename_i h; simp [h] at hok
-          · rename_i hb2
-            simp only [hb2] at hok
-            have hb2' : r2.bailed = false := by simpa using hb2
-            have c2 := v4WdPart_cover i.includeWithdraw ms (chosenAttr i) (v4Wds i) r1.w r1.a (by rw [hr2]; exact hb2')
-            rw [hr2] at c2
-            have s2 := v4WdPart_sec (A4 := fun x => 0 < x.size) (W4 := fun x => 0 < x.size) (R := fun _ => True) (U := fun _ => True)
-              i.includeWithdraw ms (chosenAttr i) (v4Wds i) r1.w r1.a (fun _ => pvw) s1.2.1 s1.2.2
-            rw [hr2] at s2
-            have cf := v4Final_cover (chosenAttr i) r2.w r2.a s2.2.2 s2.2.1
-            generalize hmp : famLoop i.includeWithdraw ms (chosenAttr i) (mpAnns i) (mpWds i) (mpFams i) r2.w r2.a = mp at hok ⊢
-            have hmp2 : mp.2 = false := by
-              cases h : mp.2 with
-              | false => rfl
-              | true => simp [h] at hok
-            have cm := famLoop_cover i.includeWithdraw ms (chosenAttr i) (mpAnns i) (mpWds i) pma pmw (mpFams i) r2.w r2.a
-              (by rw [hmp]; exact hmp2)
-            rw [hmp] at cm
-            have famIn : ∀ x ∈ mpAnns i ++ mpWds i, x.fam ∈ mpFams i := by
-              intro x hx
-              unfold mpFams
-              refine List.mem_filter.2 ⟨hf x hx, ?_⟩
-              exact List.any_eq_true.2 ⟨x, hx, by simp⟩
-            simp only
-            refine ⟨?_, ?_, ?_⟩
-            · intro x hx
-              rcases c1.1 x (Or.inl hx) with ⟨m, hm, hxm⟩ | hxa
-              · exact ⟨m, by simp [hm], hxm⟩
-              · rcases c2.2 x hxa with ⟨m, hm, hxm⟩ | hxa2
-                · exact ⟨m, by simp [hm], hxm⟩
-                · obtain ⟨m, hm, hxm⟩ := cf.1 x hxa2
-                  exact ⟨m, by simp [hm], hxm⟩
-            · intro x hx
-              exact InReach_mono (fun m hm => by simp [hm])
-                ((cm x.fam (famIn x (List.mem_append_left _ hx))).1 x hx rfl)
-            · intro hi
-              constructor
-              · intro x hx
-                rcases c2.1 hi x hx with ⟨m, hm, hxm⟩ | hxw
-                · exact ⟨m, by simp [hm], hxm⟩
-                · obtain ⟨m, hm, hxm⟩ := cf.2 x hxw
-                  exact ⟨m, by simp [hm], hxm⟩
-              · intro x hx
-                exact InUnreach_mono (fun m hm => by simp [hm])
-                  ((cm x.fam (famIn x (List.mem_append_right _ hx))).2 hi x hx rfl)
+        refine ⟨?_, ?_, fun _ => ⟨?_, ?_⟩⟩
+        · intro x hx h; have := pva x hx; omega
+        · intro x hx h; have := al (5 + x.nhLen + x.size); omega
+        · intro x hx h; have := pvw x hx; omega
+        · intro x hx h; have := al (3 + x.size); omega
+      · rename_i hms
+        have hMe : 23 + chosenAttr i + (i.M - 23 - chosenAttr i) = i.M := by omega
+        generalize i.M - 23 - chosenAttr i = ms at hMe
+        have c1 := v4AnnLoop_cover ms (chosenAttr i) (v4Anns i) [] []
+        have s1 := v4AnnLoop_sec (A4 := fun x => 0 < x.size) (W4 := fun x => 0 < x.size) (R := fun _ => True) (U := fun _ => True)
+          ms (chosenAttr i) (v4Anns i) [] [] (fun x hx _ => pva x hx) (by intro y hy; simp at hy) (by intro y hy; simp at hy)
+        generalize v4AnnLoop ms (chosenAttr i) (v4Anns i) [] [] = r1 at c1 s1 ⊢
+        have c2 := v4WdPart_cover i.includeWithdraw ms (chosenAttr i) (v4Wds i) r1.w r1.a
+        have s2 := v4WdPart_sec (A4 := fun x => 0 < x.size) (W4 := fun x => 0 < x.size) (R := fun _ => True) (U := fun _ => True)
+          i.includeWithdraw ms (chosenAttr i) (v4Wds i) r1.w r1.a (fun _ x hx _ => pvw x hx) s1.2.1 s1.2.2
+        generalize v4WdPart i.includeWithdraw ms (chosenAttr i) (v4Wds i) r1.w r1.a = r2 at c2 s2 ⊢
+        have cf := v4Final_cover (chosenAttr i) r2.w r2.a s2.2.2 s2.2.1
+        have cm := famLoop_cover i.includeWithdraw ms (chosenAttr i) (mpAnns i) (mpWds i) pma pmw (mpFams i)
+        have famIn : ∀ x ∈ mpAnns i ++ mpWds i, x.fam ∈ mpFams i := by
+          intro x hx
+          unfold mpFams
+          refine List.mem_filter.2 ⟨hf x hx, ?_⟩
+          exact List.any_eq_true.2 ⟨x, hx, by simp⟩
+        simp only
+        refine ⟨?_, ?_, ?_⟩
+        · intro x hx hfit
+          rcases c1.1 x (Or.inl ⟨hx, by omega⟩) with ⟨m, hm, hxm⟩ | hxa
+          · exact ⟨m, by simp [hm], hxm⟩
+          · rcases c2.2 x hxa with ⟨m, hm, hxm⟩ | hxa2
+            · exact ⟨m, by simp [hm], hxm⟩
+            · obtain ⟨m, hm, hxm⟩ := cf.1 x hxa2
+              exact ⟨m, by simp [hm], hxm⟩
+        · intro x hx hfit
+          exact InReach_mono (fun m hm => by simp [hm])
+            ((cm x.fam (famIn x (List.mem_append_left _ hx))).1 x hx rfl (by omega))
+        · intro hi
+          constructor
+          · intro x hx hfit
+            rcases c2.1 hi x hx (by omega) with ⟨m, hm, hxm⟩ | hxw
+            · exact ⟨m, by simp [hm], hxm⟩
+            · obtain ⟨m, hm, hxm⟩ := cf.2 x hxw
+              exact ⟨m, by simp [hm], hxm⟩
+          · intro x hx hfit
+            exact InUnreach_mono (fun m hm => by simp [hm])
+              ((cm x.fam (famIn x (List.mem_append_right _ hx))).2 hi x hx rfl (by omega))
 
-/-! ### the silent `return`s -/
+/-! ### how the generator ends -/
 
-theorem v4AnnLoop_keeps (ms attr : Nat) :
-    ∀ (xs w a : List Nlri), Pos xs → sz a ≠ 0 →
-      (v4AnnLoop ms attr xs w a).bailed = false ∧ sz (v4AnnLoop ms attr xs w a).a ≠ 0 := by
-  intro xs
-  induction xs with
-  | nil => intro w a _ h; exact ⟨rfl, h⟩
-  | cons x xs ih =>
-    intro w a hp h
-    have hxs : Pos xs := fun y hy => hp y (by simp [hy])
-    have hx := hp x (by simp)
-    unfold v4AnnLoop
-    split
-    · exact ih w (a ++ [x]) hxs (by simp; omega)
-    · split
-      · rename_i h0; omega
-      · exact ih [] [x] hxs (by simp; omega)
-
-/-- giving up (`return` after `log.critical`) happens before anything was yielded -/
-theorem v4AnnLoop_bailed_nil (ms attr : Nat) :
-    ∀ (xs w a : List Nlri), Pos xs → (v4AnnLoop ms attr xs w a).bailed = true →
-      (v4AnnLoop ms attr xs w a).msgs = [] := by
-  intro xs
-  induction xs with
-  | nil => intro w a _ h; simp [v4AnnLoop] at h
-  | cons x xs ih =>
-    intro w a hp hb
-    have hxs : Pos xs := fun y hy => hp y (by simp [hy])
-    have hx := hp x (by simp)
-    unfold v4AnnLoop at hb ⊢
-    split
-    · rename_i hfit
-      simp only [hfit, if_true] at hb
-      exact ih w (a ++ [x]) hxs hb
-    · rename_i hfit
-      simp only [hfit, if_false] at hb
-      split
-      · rfl
-      · rename_i h0
-        simp only [h0, if_false] at hb
-        have := (v4AnnLoop_keeps ms attr xs [] [x] hxs (by simp; omega)).1
-        rw [this] at hb; cases hb
-
-/-- when the announce loop yielded something, it still holds an announce -/
-theorem v4AnnLoop_msgs_a (ms attr : Nat) :
-    ∀ (xs w a : List Nlri), Pos xs →
-      (v4AnnLoop ms attr xs w a).msgs = [] ∨ sz (v4AnnLoop ms attr xs w a).a ≠ 0 := by
-  intro xs
-  induction xs with
-  | nil => intro w a _; exact Or.inl rfl
-  | cons x xs ih =>
-    intro w a hp
-    have hxs : Pos xs := fun y hy => hp y (by simp [hy])
-    have hx := hp x (by simp)
-    unfold v4AnnLoop
-    split
-    · exact ih w (a ++ [x]) hxs
-    · split
-      · exact Or.inl rfl
-      · exact Or.inr (v4AnnLoop_keeps ms attr xs [] [x] hxs (by simp; omega)).2
-
-theorem v4WdLoop_keeps (ms attr : Nat) :
-    ∀ (xs w a : List Nlri), Pos xs → (sz a ≠ 0 ∨ sz w ≠ 0) → (v4WdLoop ms attr xs w a).bailed = false := by
-  intro xs
-  induction xs with
-  | nil => intro w a _ _; rfl
-  | cons x xs ih =>
-    intro w a hp h
-    have hxs : Pos xs := fun y hy => hp y (by simp [hy])
-    have hx := hp x (by simp)
-    unfold v4WdLoop
-    split
-    · exact ih (w ++ [x]) a hxs (Or.inr (by simp; omega))
-    · split
-      · rename_i h0; omega
-      · exact ih [x] [] hxs (Or.inr (by simp; omega))
-
-theorem v4WdLoop_bailed_nil (ms attr : Nat) :
-    ∀ (xs w a : List Nlri), Pos xs → (v4WdLoop ms attr xs w a).bailed = true →
-      (v4WdLoop ms attr xs w a).msgs = [] ∧ sz a = 0 := by
-  intro xs
-  induction xs with
-  | nil => intro w a _ h; simp [v4WdLoop] at h
-  | cons x xs ih =>
-    intro w a hp hb
-    have hxs : Pos xs := fun y hy => hp y (by simp [hy])
-    have hx := hp x (by simp)
-    unfold v4WdLoop at hb ⊢
-    split
-    · rename_i hfit
-      simp only [hfit, if_true] at hb
-      have := v4WdLoop_keeps ms attr xs (w ++ [x]) a hxs (Or.inr (by simp; omega))
-      rw [this] at hb; cases hb
-    · rename_i hfit
-      simp only [hfit, if_false] at hb
-      split
-      · rename_i h0; exact ⟨rfl, h0.2⟩
-      · rename_i h0
-        simp only [h0, if_false] at hb
-        have := v4WdLoop_keeps ms attr xs [x] [] hxs (Or.inr (by simp; omega))
-        rw [this] at hb; cases hb
-
-/-- **the silent give-up yields nothing**: `log.critical` + `return` only ever happens before the
-    first message. -/
-theorem packRaw_noRoom (i : Input) (hp : PosSizes i) (h : (packRaw i).status = .noRoom) :
-    (packRaw i).msgs = [] := by
-  have pva : Pos (v4Anns i) := pos_filter hp.1 _
-  have pvw : Pos (v4Wds i) := pos_filter hp.2 _
-  unfold packRaw at h ⊢
+/-- `messages` never raises: it either runs to its end or returns at once because `msg_size ≤ 0` -/
+theorem packRaw_status (i : Input) :
+    (packRaw i).status = .ok ∨ ((packRaw i).status = .noRoom ∧ (packRaw i).msgs = [] ∧ i.M ≤ 23 + chosenAttr i) := by
+  unfold packRaw
   split
-  · rfl
-  · rename_i hne
-    simp only [hne] at h
-    simp only at h ⊢
+  · exact Or.inl rfl
+  · simp only
     split
-    · rfl
-    · rename_i hM
-      simp only [hM, if_false] at h
-      split
-      · rfl
-      · rename_i hms
-        simp only [hms, if_false] at h
-        generalize i.M - 23 - chosenAttr i = ms at h ⊢
-        split
-        · rename_i hb
-          exact v4AnnLoop_bailed_nil ms (chosenAttr i) (v4Anns i) [] [] pva hb
-        · rename_i hb1
-          simp only [hb1] at h
-          split
-          · rename_i hb2
-            simp only
-            unfold v4WdPart at hb2 ⊢
-            split
-            · rename_i hi
-              simp only [hi, if_true] at hb2
-              have := v4WdLoop_bailed_nil ms (chosenAttr i) (v4Wds i) _ _ pvw hb2
-              rcases v4AnnLoop_msgs_a ms (chosenAttr i) (v4Anns i) [] [] pva with h1 | h1
-              · simp [h1, this.1]
-              · exact absurd this.2 h1
-            · rename_i hi
-              simp [hi] at hb2
-          · rename_i hb2
-            simp only [hb2] at h
-            generalize famLoop _ _ _ _ _ _ _ _ = mp at h
-            cases hmp : mp.2 <;> simp [hmp] at h
+    · rename_i h; exact Or.inr ⟨rfl, rfl, by omega⟩
+    · split
+      · rename_i h1 h2; exact Or.inr ⟨rfl, rfl, by omega⟩
+      · exact Or.inl rfl
 
 /-- attributes that leave no room at all (`msg_size ≤ 0`): nothing is sent -/
 theorem packRaw_no_room (i : Input) (h : i.M ≤ 23 + chosenAttr i) : (packRaw i).msgs = [] := by
@@ -421,7 +271,5 @@ theorem packRaw_no_room (i : Input) (h : i.M ≤ 23 + chosenAttr i) : (packRaw i
     · split
       · rfl
       · rename_i h1 h2; omega
-
-theorem cut_nil_of (l : List Msg) (h : l = []) : (cut l).1 = [] := by subst h; rfl
 
 end Exa.Pack
